@@ -118,6 +118,8 @@ func init() {
 			}
 			return nil
 		},
+		"Or":  func(fr *frame, a []value) value { return fr.i.orV(a[0], a[1]) },
+		"And": func(fr *frame, a []value) value { return fr.i.andV(a[0], a[1]) },
 		"PickStr": func(fr *frame, a []value) value {
 			i := fr.i
 			tab := a[1].([]value)
@@ -214,7 +216,7 @@ func init() {
 		"Fill":            vxFill,
 		"FillAll":         vxFillAll,
 		"FillOne":         vxFillOne,
-		"FillOneOf": vxFillOneOf,
+		"FillOneOf":       vxFillOneOf,
 		"Dump":            vxDump,
 	}
 }
